@@ -81,7 +81,7 @@ def pCfg : P Cfg := do
   let overrideCharge ← bool
   pure { cleave, restrict := restrict.map (·.toUInt8), cterm, semi, mc, minLen, maxLen, minMass, maxMass, statics, vars,
          maxVar, decoyTag, genDecoys, ptol, ftol, isoLo, isoHi, zLo, zHi, reportPsms, chimera, minPeaks, maxPeaks,
-         minMatched, maxFragCharge, deisotope, annotate, pin, predictRt, batch, bucket, minIonIndex, tmt, overrideCharge }
+         minMatched, maxFragCharge, deisotope, annotate, pin, predictRt, batch, bucket, minIonIndex, tmt, overrideCharge, prefilter := false, prefilterChunk := 0 }
 
 def pSpectrum : P Spectrum := do
   let title ← bytes
@@ -96,7 +96,12 @@ def pRun : P Run := do
   let fasta ← list (do let a ← bytes; let s ← bytes; pure (a, s))
   let files ← list (list pSpectrum)
   let planted ← list (do let f ← nat; let t ← bytes; let p ← bytes; pure ({ file := f, title := t, peptide := p } : Planted))
-  pure { cfg, fasta, files, planted }
+  -- optional trailing tokens (absent in older request lines): prefilter flag and chunk size
+  let rest ← get
+  let (prefilter, prefilterChunk) ← match rest with
+    | [] => pure (false, 0)
+    | _ => do let a ← bool; let b ← nat; pure (a, b)
+  pure { cfg := { cfg with prefilter, prefilterChunk }, fasta, files, planted }
 
 def pRow : P Row := do
   let psmId ← nat; let peptide ← bytes; let proteins ← bytes; let numProteins ← nat
@@ -144,7 +149,7 @@ def verdict (run : Run) (impl : List String) : String :=
           match (if run.cfg.pin then pinViolation rows pins else none) with
           | some c => "bad:" ++ c
           | none =>
-            match (if run.cfg.annotate then fragViolation rows frags else none) with
+            match (if run.cfg.annotate then fragViolation run rows frags else none) with
             | some c => "bad:" ++ c
             | none =>
               match plantedViolation run rows with
@@ -211,6 +216,9 @@ def minDeisoMzOf (tmt : Nat) : Option F :=
 
 /-- the configuration of the composed model; `Except` carries the `model-na` reason -/
 def mkPCfg (c : Cfg) (cf : CfgF) : Except String (PCfg F) := do
+  -- the chunked pre-filter build restricts the final database to peptides hit in a first pass: the candidate
+  -- counters (scored_candidates, poisson) then differ from the plain build, which is what the model composes
+  if c.prefilter then throw "prefilter"
   let par ← match ({ mc := some c.mc, minLen := some c.minLen, maxLen := some c.maxLen, cleaveAt := some c.cleave,
                      restrict := c.restrict, cTerminal := some c.cterm, semi := some c.semi } : C05.Builder).toParams with
     | some p => pure p
